@@ -357,7 +357,9 @@ class Ctx:
             "discharged": self.discharged,
             "checker_cmd": checker_cmd or f"cd lean && lake build YncaVerif.Props.{self.pid} && lake env lean <#print axioms of every theorem in Props/{self.pid}.lean>",
             "trusted_base": sorted({a for v in self.axioms.values() if v for a in v}) + [
-                "Lean 4.33.0 kernel", "harness/extract.py (translator)", "harness correspondence + monitors (Python)"],
+                "Lean 4.33.0 kernel", "harness/extract.py (translator)", "harness correspondence + monitors (Python)"] + (
+                    ["trace renderer harness/render.py (the acceptor itself is proved sound: Props/Tie.lean, Tie_accept_sound; its completeness is not proved)"]
+                    if any(n.startswith("Ynca.Tie.") for n in self.axioms) else []),
             "theorems": sorted(self.axioms.keys()),
             "evaluations": self.evaluations,
             "distinct_nontrivial": len(self.distinct),
